@@ -5,6 +5,7 @@ import (
 	"context"
 	"encoding/xml"
 	"fmt"
+	"io"
 	"strings"
 	"time"
 
@@ -24,17 +25,18 @@ type c08Op struct {
 }
 
 type c08Scenario struct {
-	WebSocket    bool       `json:"websocket"`
-	Component    bool       `json:"component"`
-	TLS          bool       `json:"tls"`
-	Client       ClientOpts `json:"client"`
-	Ops          []c08Op    `json:"ops"`
-	Tasks        int        `json:"tasks"`
-	BackPressure int        `json:"backpressure_window,omitempty"` // >0: the server's receive window; it stops reading for a while
-	FailWrite    int        `json:"fail_write_j"`                  // j-th socket write after establishment fails (0: none)
-	Partial      int        `json:"fail_partial_bytes"`
-	Seg          int        `json:"segmentation"`
-	LatencyNs    int64      `json:"latency_ns"`
+	AfterReconnect bool       `json:"after_reconnect,omitempty"` // the sends happen on a session re-established by Resume after a loss
+	WebSocket      bool       `json:"websocket"`
+	Component      bool       `json:"component"`
+	TLS            bool       `json:"tls"`
+	Client         ClientOpts `json:"client"`
+	Ops            []c08Op    `json:"ops"`
+	Tasks          int        `json:"tasks"`
+	BackPressure   int        `json:"backpressure_window,omitempty"` // >0: the server's receive window; it stops reading for a while
+	FailWrite      int        `json:"fail_write_j"`                  // j-th socket write after establishment fails (0: none)
+	Partial        int        `json:"fail_partial_bytes"`
+	Seg            int        `json:"segmentation"`
+	LatencyNs      int64      `json:"latency_ns"`
 }
 
 func init() {
@@ -92,6 +94,7 @@ func runC08(e *Engine, g G, o RunOpt) RunInfo {
 		// a slow server: senders block in the middle of their writes and queue up behind each other
 		sc.BackPressure = []int{600, 3000, 20000}[g.N("window", 3)]
 	}
+	sc.AfterReconnect = !sc.Component && !sc.WebSocket && !sc.TLS && g.Pct("after-reconnect", 20)
 	sc.Seg, sc.LatencyNs = netModes(g, e)
 	script := DefaultNeg()
 	script.SM = sc.Client.SM
@@ -169,6 +172,22 @@ func runC08(e *Engine, g G, o RunOpt) RunInfo {
 			sender = s.W.Client
 			conn = s.Conn
 			logw = s.W.LogW
+			if sc.AfterReconnect {
+				c0 := s.Conn
+				c0.Pipe.Cli.CutAt = c0.End.TotalWritten
+				c0.Pipe.Cli.CutErr = io.EOF
+				if e.WaitUntilFor("first-loss", time.Minute, func() bool { return countState(s.W.Events, xmpp.StateDisconnected) > 0 }) {
+					return
+				}
+				e.Sleep(time.Second)
+				err, _ := e.Call("Resume", s.W.Client.Resume)
+				if err != nil || len(s.Srv.Conns) != 2 {
+					return
+				}
+				e.Sleep(100 * time.Millisecond)
+				conn = s.Srv.Conns[1]
+				e.Probe("c08.after_reconnect")
+			}
 		}
 		established = true
 		var cli *End
